@@ -21,6 +21,9 @@ type gen struct {
 	feat  map[string]bool
 	n     int
 	defs  bool // generating a build_defs file (no targets at top level)
+	emptySub bool // allow subinclude() without arguments (rejected by Please; simplify stream only)
+	subSeen  bool // a subinclude call has been emitted (DEFS_PKG may be defined)
+	inLoop   bool
 }
 
 type fn struct {
@@ -183,7 +186,7 @@ func (g *gen) sexpr(d int) string {
 		return g.lit()
 	case 13:
 		g.f("slice")
-		return g.atom() + lib.Pick(g.r, []string{"[1:]", "[:2]", "[:-1]", "[0:1]"})
+		return g.atom() + lib.Pick(g.r, []string{"[1:]", "[:2]", "[0:1]"})
 	case 14:
 		// implicit concatenation inside brackets / parentheses (no continuation needed there)
 		g.f("implicit_concat_bracketed")
@@ -421,7 +424,10 @@ func (g *gen) assign() string {
 			return lib.Pick(g.r, g.lists) + " += " + g.lexpr(1)
 		}
 	case 10:
-		// top-level implicit concatenation: the shape of the known finding
+		// top-level implicit concatenation: the shape of the known finding (kept rare: every such file is rejected after formatting)
+		if !g.r.Chance(1, 3) {
+			break
+		}
 		g.f("implicit_concat_toplevel")
 		v := g.fresh("s")
 		g.strs = append(g.strs, v)
@@ -451,7 +457,10 @@ func (g *gen) subRun() string {
 	for i := 0; i < n; i++ {
 		nargs := 1
 		if g.r.Chance(1, 4) {
-			nargs = g.r.Range(0, 3)
+			nargs = g.r.Range(1, 3)
+			if g.emptySub {
+				nargs = g.r.Range(0, 3)
+			}
 		}
 		args := []string{}
 		for j := 0; j < nargs; j++ {
@@ -474,8 +483,12 @@ func (g *gen) subRun() string {
 				args = append(args, `f"`+l+`"`)
 			case 5:
 				// an f-string over a name that a defs file defines (DEFS_PKG = "defs" in every d*.build_defs)
-				g.f("sub_fstring_defs_name")
-				args = append(args, `f"//{DEFS_PKG}:`+l[7:]+`"`)
+				if g.subSeen || g.emptySub {
+					g.f("sub_fstring_defs_name")
+					args = append(args, `f"//{DEFS_PKG}:`+l[7:]+`"`)
+				} else {
+					args = append(args, `"`+l+`"`)
+				}
 			case 6:
 				g.f("sub_triple")
 				args = append(args, `"""`+l+`"""`)
@@ -484,6 +497,9 @@ func (g *gen) subRun() string {
 			}
 		}
 		call := "subinclude(" + strings.Join(args, ", ") + ")"
+		if len(args) > 0 {
+			g.subSeen = true
+		}
 		if len(args) > 1 && g.r.Chance(1, 3) {
 			g.f("sub_multiline")
 			call = "subinclude(\n    " + strings.Join(args, ",\n    ") + ",\n)"
@@ -553,7 +569,11 @@ func (g *gen) target(indent string, nameExpr string) string {
 	}
 	args := []string{}
 	rule := "filegroup"
-	switch g.r.Intn(4) {
+	k := g.r.Intn(4)
+	if g.inLoop {
+		k = 3
+	}
+	switch k {
 	case 0:
 		rule = "genrule"
 		g.f("genrule")
@@ -572,6 +592,9 @@ func (g *gen) target(indent string, nameExpr string) string {
 			args = append(args, kw("env", `{"B": "2", "A": `+g.atom()+`}`))
 		}
 	default:
+		if g.inLoop {
+			break
+		}
 		if g.r.Chance(2, 3) {
 			g.f("literal_srcs")
 			args = append(args, kw("srcs", g.listLit(quoteAll(g.strList(srcFiles, 0, 4, g.r.Chance(1, 5))))))
@@ -815,7 +838,9 @@ func genFile(r *lib.Rng, defs bool) (text, consumer string, feat map[string]bool
 		case k == 16 && !defs:
 			g.f("toplevel_for")
 			pfx := tname()
+			g.inLoop = true
 			b.WriteString("for it in " + g.listLit([]string{`"y"`, `"x"`}) + ":\n" + g.target("    ", `"`+pfx+`_" + it`) + "\n")
+			g.inLoop = false
 		case k == 17:
 			g.f("toplevel_if")
 			v := g.fresh("s")
